@@ -35,7 +35,7 @@ PROP = {
              "trailing bytes) and back through taggedRequestDecodeFunctions, and through tlb.Marshal + tlb.Unmarshal; the "
              "extracted model evaluates tl_encode/tl_decode/tl_request resp. spec_encode (+ the C03 model decoder and refines) "
              "with the schema carried AS DATA in the case, and must print the same bytes / cells / values. Oracles on the "
-             "implementation: every TL-B program is written through tlb/parser.File.Save over a path with a history (longer file / same twice / fresh) and must equal a fresh-path save and compile; GetTlbTypes lists the declared types; the three command-line emitters (liteclient/generator.go, tlb/generator.go, tlb/generator-config.go) run over an existing longer output file must leave what they leave in an empty directory; generator succeeds, output identical over 3 runs, go build succeeds, checker true, decode "
+             "a fixed program `tlvec` takes values across the thresholds of the TL runtime the generated methods run on (vectors of 4095/4096/4097/thousands more/8192/8193 items of every element kind followed by a field and junk, byte strings 253..255 / 4095..4097 / 65535..65536, nesting 30, requests and whole/cut responses carrying them). implementation: every TL-B program is written through tlb/parser.File.Save over a path with a history (longer file / same twice / fresh) and must equal a fresh-path save and compile; GetTlbTypes lists the declared types; the three command-line emitters (liteclient/generator.go, tlb/generator.go, tlb/generator-config.go) run over an existing longer output file must leave what they leave in an empty directory; generator succeeds, output identical over 3 runs, go build succeeds, checker true, decode "
              "inverts encode, server-side decoder returns the request, tlb/integers.go is what the builtin generators "
              "produce. EXPLORATORY STREAM (never alarms, recorded as classes c09.explore|...): schemas with one departure "
              "from the subset (late declaration, colliding Go names, unconditional true, conditional field inside a "
